@@ -229,13 +229,26 @@ Definition gsvd_predict_norm_key (prow pcol psr : Q -> Q) (ncol : nat) (reg : Q)
 Definition pca_operator (nrow ncol : nat) (A : mat) : sparselr :=
   {| slr_mat := A;
      slr_lr := [(vneg (vones nrow), map (fun s => s / qn nrow) (qmat_vec (transpose_n ncol A) (vones nrow)))] |}.
-(** (embedding_row_, embedding_col_, singular_values_).  [normalized] is a constructor argument of PCA
-    but [PCA.fit] never reads it: no normalisation is applied. *)
-Definition pca_fit (normalized : bool) (sU : mat) (sS : vec) (sV : mat) : mat * mat * vec := (sU, sV, sS).
-(** [PCA.predict] is inherited from GSVD and evaluates [np.power(self.weights_col_, self.factor_col)]
-    with [weights_col_ = None] (PCA.fit never sets it): TypeError for every argument. *)
+(** [mean_col_ = adjacency.T.dot(ones(n_row)) / n_row] (the same vector as in the operator). *)
+Definition pca_mean_col (nrow ncol : nat) (A : mat) : vec :=
+  map (fun s => s / qn nrow) (qmat_vec (transpose_n ncol A) (vones nrow)).
+(** PCA.fit after the solver: (embedding_row_, embedding_col_, singular_values_);
+    [if self.normalized: normalize(., p=2)] on both embeddings. *)
+Definition pca_fit (norm_o : Q -> Q) (normalized : bool) (sU : mat) (sS : vec) (sV : mat) : mat * mat * vec :=
+  (if normalized then normalize2 norm_o sU else sU, if normalized then normalize2 norm_o sV else sV, sS).
+(** PCA.predict on ONE adjacency vector:
+    [projection = x.dot(V)]; [(projection - mean_col_.dot(V)) / singular_values_]; normalised when asked. *)
+Definition pca_predict_row (norm_o : Q -> Q) (normalized : bool) (mean_col sv : vec) (Vr : mat) (x : vec) : vec :=
+  let emb := map (fun k => (qdot x (col k Vr) - qdot mean_col (col k Vr)) / nthq sv k) (seq 0 (length sv)) in
+  if normalized then normalize_row2 norm_o emb else emb.
+Definition pca_predict_norm_key (mean_col sv : vec) (Vr : mat) (x : vec) : Q :=
+  sqnorm (pca_predict_row (fun q => q) false mean_col sv Vr x).
+
+(** LEGACY (before fix 11827c95): [PCA.fit] never read [normalized], and [PCA.predict] was GSVD.predict
+    evaluating [np.power(self.weights_col_, ...)] with [weights_col_ = None] (TypeError for every argument). *)
+Definition pca_fit_legacy (normalized : bool) (sU : mat) (sS : vec) (sV : mat) : mat * mat * vec := (sU, sV, sS).
 Inductive predict_error := TypeError.
-Definition pca_predict_row (weights_col : option vec) (x : vec) : vec + predict_error :=
+Definition pca_predict_row_legacy (weights_col : option vec) (x : vec) : vec + predict_error :=
   match weights_col with None => inr TypeError | Some _ => inl x end.
 (** SPECIFICATION: the centred matrix A - 1 mean^T, mean_j = column mean. *)
 Definition col_means (nrow ncol : nat) (A : mat) : vec := map (fun s => s / qn nrow) (col_sums ncol A).
@@ -250,10 +263,11 @@ Definition lanczos_svd_sort (u : mat) (s : vec) (vt : mat) (index : list nat) : 
 (** * embedding/random_projection.py : the loop
     [factor = G; embedding = G.copy(); for t in range(n_iter): factor = alpha * multiplier.dot(factor);
      embedding += factor], column by column ([multiplier.dot] of a matrix acts on each column). *)
+Definition vred (v : vec) : vec := map Qred v.   (* same numbers, reduced fractions: keeps exact evaluation small *)
 Fixpoint rp_loop (op : vec -> vec) (alpha : Q) (n_iter : nat) (factor emb : vec) : vec :=
   match n_iter with
   | O => emb
-  | S k => let f := vscale alpha (op factor) in rp_loop op alpha k f (vadd emb f)
+  | S k => let f := vred (vscale alpha (op factor)) in rp_loop op alpha k f (vred (vadd emb f))
   end.
 Definition rp_multiplier (random_walk : bool) (n : nat) (A : mat) (reg : Q) : vec -> vec :=
   if random_walk then normalizer_matvec n n A reg else slr_matvec (regularizer n n A reg).
